@@ -6,6 +6,7 @@ prologue written by the mapping's forward function is the one vorbis_synthesis r
 written by floor1_encode is the one floor1_inverse1 reads; R05.5 every producer of an ogg_packet fills all six fields."""
 import k8
 from facts import AnalysisBroken
+import cfg
 from rules import layout, common
 
 
@@ -342,6 +343,173 @@ def r05_8(chk, P):
     return n
 
 
+def r05_9(chk, P):
+    chk.rule('R05.9', 'every residue value the encoder writes has a codeword: the entry number handed to vorbis_book_encode by the '
+             'residue encoder comes from a quantiser function G (discovered: the call whose result reaches the entry argument); '
+             'in G, on every path from the last computation of the returned entry number to the return, either a branch '
+             'established that the book\'s codeword length for that entry (the table vorbis_book_encode takes the bit width '
+             'from) is non-zero, or the path ran the nearest-used-entry search (the loop that assigns the entry only under a '
+             'non-zero length test). A zero-length entry is written as zero bits while the decoder still reads a codeword, so '
+             'the rest of the packet is mis-parsed. Assumed: an encoder book has at least one used entry (the search then assigns)')
+    W = P.need('vorbis_book_encode')
+    # the width table: third argument of the bit writer inside vorbis_book_encode, subscripted by the entry parameter
+    ltab = None
+    for c in W.calls('oggpack_write'):
+        a = W.ex[c]['c']
+        if len(a) >= 3:
+            nd = W.ex[W.strip_casts(a[2])]
+            if nd['k'] == 'sub':
+                b = W.ex[W.strip_casts(nd['c'][0])]
+                i = W.ex[W.strip_casts(nd['c'][1])]
+                if b['k'] == 'member' and i['k'] == 'ref' and i['decl'].get('kind') == 'param':
+                    ltab = b['field']
+    chk.require(ltab is not None, 'vorbis_book_encode: the codeword length table was not found')
+    # quantiser functions
+    G = {}
+    for F in P.functions():
+        if not F.file.endswith('res0.c'):
+            continue
+        for c in F.calls('vorbis_book_encode'):
+            a = F.ex[c]['c']
+            if len(a) < 2:
+                continue
+            ent = F.ex[F.strip_casts(a[1])]
+            if ent['k'] != 'ref' or ent['decl'].get('kind') != 'var':
+                continue
+            vid = ent['decl']['id']
+            for e in F.pos:
+                nd = F.ex[e]
+                init = None
+                if nd['k'] == 'decl':
+                    for v in nd['vars']:
+                        if v.get('id') == vid and v.get('init'):
+                            init = v['init']
+                elif nd['k'] == 'assign' and nd['op'] == '=':
+                    l = F.ex[F.strip_casts(nd['c'][0])]
+                    if l['k'] == 'ref' and l['decl'].get('id') == vid:
+                        init = nd['c'][1]
+                if init is not None:
+                    r = F.ex[F.strip_casts(init)]
+                    if r['k'] == 'call' and r['callee'].get('d'):
+                        g = P.get(r['callee']['d'], frm=F)
+                        if g is not None:
+                            G[g.name] = g
+    chk.require(G, 'no quantiser feeding vorbis_book_encode found in res0.c')
+
+    def len_test(F, cond, xid):
+        """(edge polarity on which lengthtable[x] != 0 is established) or None"""
+        nd = F.ex[F.strip_casts(cond)]
+
+        def is_len(e):
+            n = F.ex[F.strip_casts(e)]
+            if n['k'] != 'sub':
+                return False
+            b = F.ex[F.strip_casts(n['c'][0])]
+            i = F.ex[F.strip_casts(n['c'][1])]
+            return b['k'] == 'member' and b['field'] == ltab and i['k'] == 'ref' and i['decl'].get('id') == xid
+        if is_len(nd['id']):
+            return True
+        if nd['k'] == 'un' and nd['op'] == '!' and is_len(nd['c'][0]):
+            return False
+        if nd['k'] == 'bin' and nd['op'] in ('<', '<=', '>', '>=', '==', '!='):
+            a, b = nd['c']
+            op = nd['op']
+            if is_len(b) and common.const_val(F, a) is not None:
+                a, b = b, a
+                op = {'<': '>', '<=': '>=', '>': '<', '>=': '<=', '==': '==', '!=': '!='}[op]
+            if is_len(a):
+                c = common.const_val(F, b)
+                if c is None:
+                    return None
+                import operator
+                f = {'<': operator.lt, '<=': operator.le, '>': operator.gt, '>=': operator.ge, '==': operator.eq, '!=': operator.ne}[op]
+                vals = range(-3, 130)
+                if all(v != 0 for v in vals if f(v, c)):
+                    return True
+                if all(v != 0 for v in vals if not f(v, c)):
+                    return False
+        return None
+
+    n = 0
+    for name, F in sorted(G.items()):
+        rets = cfg.returns(F)
+        xs = set()
+        for r in rets:
+            c = F.ex[r].get('c', [])
+            v = F.ex[F.strip_casts(c[0])] if c else None
+            if v is not None and v['k'] == 'ref' and v['decl'].get('kind') == 'var':
+                xs.add(v['decl']['id'])
+        chk.require(len(xs) == 1, f'{name}: the returned entry variable is not unique')
+        xid = next(iter(xs))
+        # search loops: contain an assignment X = Y controlled by a non-zero length test of Y
+        search = set()
+        for e in F.nodes('assign'):
+            nd = F.ex[e]
+            l = F.ex[F.strip_casts(nd['c'][0])]
+            r = F.ex[F.strip_casts(nd['c'][1])]
+            if nd['op'] == '=' and l['k'] == 'ref' and l['decl'].get('id') == xid and r['k'] == 'ref' and r['decl'].get('kind') == 'var':
+                conds = common.controlling_conditions(F, e)
+                if any(len_test(F, c, r['decl']['id']) == pol for c, pol in conds if len_test(F, c, r['decl']['id']) is not None):
+                    for h, body in cfg.loops(F).items():
+                        if F.pos[e][0] in body:
+                            search.add(h)
+        in_search = set()
+        for h in search:
+            in_search |= cfg.loops(F)[h]
+        # may-set of states per block: U unknown, K length known non-zero, S passed the search loop
+        inn = {F.entry: {'U'}}
+        work = [F.entry]
+        while work:
+            b = work.pop()
+            st = set(inn[b])
+            if b in search:
+                st = {'S'}
+            blk = F.blocks[b]
+            for e in blk['elems']:
+                nd = F.ex[e]
+                tgt = None
+                if nd['k'] == 'assign':
+                    tgt = F.ex[F.strip_casts(nd['c'][0])]
+                elif nd['k'] == 'un' and nd['op'] in ('pre++', 'post++', 'pre--', 'post--'):
+                    tgt = F.ex[F.strip_casts(nd['c'][0])]
+                elif nd['k'] == 'decl':
+                    if any(v.get('id') == xid for v in nd['vars']):
+                        st = {'U'}
+                if tgt is not None and tgt['k'] == 'ref' and tgt['decl'].get('id') == xid and b not in in_search:
+                    st = {'U'}
+            t = blk.get('term')
+            cond = t.get('cond') if t else None
+            for si, s in enumerate(blk['succs']):
+                if s is None:
+                    continue
+                out = set(st)
+                if cond is not None and len(blk['succs']) == 2 and t.get('kind') != 'switch':
+                    pol = len_test(F, cond, xid)
+                    if pol is not None and pol == (si == 0):
+                        out = {('K' if x == 'U' else x) for x in out}
+                if not out <= inn.get(s, set()):
+                    inn[s] = inn.get(s, set()) | out
+                    work.append(s)
+        for r in rets:
+            st = inn.get(F.pos[r][0], set())
+            c = F.ex[r].get('c', [])
+            cv = common.const_val(F, c[0]) if c else None
+            ok = 'U' not in st or (cv is not None and cv < 0)
+            chk.ob('R05.9', name, f'returned-entry-has-a-codeword@{F.loc(r)}', ok, F.where(r),
+                   f'on every path the {ltab} test of the returned entry was passed or the used-entry search ran '
+                   f'({len(search)} search loop(s))' if ok else
+                   f'a path reaches `{F.s(r)}` on which neither `{ltab}[{F.vars[xid]["name"]}]` was found non-zero nor the '
+                   f'nearest-used-entry search ran: the encoder can emit an entry that has no codeword (zero bits written, the '
+                   'decoder reads a codeword)')
+            n += 1
+        chk.ob('R05.9', name, 'used-entry-search-present', bool(search), F.where(),
+               f'{len(search)} loop(s) assign the entry only under a non-zero {ltab} test' if search else
+               f'no loop assigns the entry under a non-zero {ltab} test')
+    chk.assumed('R05.9', 'local_book_besterror', 'encoder-book-has-a-used-entry', 'lib/res0.c',
+                'the static encoder books each have at least one entry with a codeword, so the search loop assigns an entry')
+    return n
+
+
 def run(chk, P):
     r05_8(chk, P)
     chk.floor('R05.8', 2)
@@ -356,6 +524,8 @@ def run(chk, P):
     chk.floor('R05.6', 2)
     r05_7(chk, P)
     chk.floor('R05.7', 1)
+    r05_9(chk, P)
+    chk.floor('R05.9', 2)
     chk.notes.append(f'R05.1: {npairs} writer/reader pairs ({[f"{a}<->{b}" for a, b in layout.PAIRS + layout.slot_pairs(P)]}), '
                      f'{nfields} aligned fields role-checked')
     chk.trusted += ['clang 14 front end', 'libogg: oggpack_write(b,v,n) appends the low n bits of v; oggpack_read(b,n) returns them',
